@@ -43,12 +43,13 @@ def case_strategy(draw, variant):
     by = draw(st.sampled_from(["k1", "k2", ["k1", "k2"], "array", "series", "level", "level+col", "k1+array"]))
     index = draw(st.sampled_from(["default", "shuffled", "dup", "str", "multi"]))
     if by in ("level", "level+col"):
-        index = "multi"
+        # level names: strings, or integers that are valid positions but do not name their own position (pandas resolves names first)
+        index = draw(st.sampled_from(["multi", "multi", "multi_intnames"]))
     obj = draw(st.sampled_from(["frame", "frame", "col", "cols", "series"]))
     method = draw(st.sampled_from(METHODS))
     temporal = draw(st.sampled_from([False, False, True])) and method in ("min", "max", "first", "last", "count", "size", "cummin", "cummax")
     return {"n": n, "k1": k1, "k2": k2, "fl": fl, "it": it, "bo": bo, "dt": dt, "by": by, "index": index, "obj": obj, "method": method,
-            "temporal": temporal, "window": draw(st.integers(1, 3)), "min_periods": draw(st.sampled_from([None, 1, 0])), "narg": draw(st.integers(0, 3))}
+            "temporal": temporal, "prior_use": draw(st.sampled_from(["none", "none", "count", "size", "sum_it"])), "window": draw(st.integers(1, 3)), "min_periods": draw(st.sampled_from([None, 1, 0])), "narg": draw(st.integers(0, 3))}
 
 
 def build(case):
@@ -62,8 +63,9 @@ def build(case):
     else:
         cols["bo"] = np.array(case["bo"], dtype=bool)
     df = pd.DataFrame(cols, index=idx)
-    if case["index"] == "multi":
-        df.index = pd.MultiIndex.from_arrays([[i % 2 for i in range(n)], [f"x{i}" for i in range(n)]], names=["lv", "b"])
+    if case["index"] in ("multi", "multi_intnames"):
+        df.index = pd.MultiIndex.from_arrays([[i % 2 for i in range(n)], [f"x{i}" for i in range(n)]],
+                                             names=["lv", "b"] if case["index"] == "multi" else [1, 0])
     return df
 
 
@@ -79,10 +81,12 @@ def resolve_by(case, df):
         return {"by": ext}, [ext], []
     if by == "series":
         return {"by": pd.Series(ext, index=df.index, name="ext")}, [pd.Series(ext, index=df.index, name="ext")], []
+    lv = "lv" if case["index"] != "multi_intnames" else 1  # the level NAMED 1 is the first level (positions are 0, 1)
+    first_level = df.index.get_level_values(df.index.names[0]) if isinstance(df.index, pd.MultiIndex) else None
     if by == "level":
-        return {"level": "lv"}, [df.index.get_level_values("lv")], []
+        return {"level": lv}, [first_level], []
     if by == "level+col":
-        return {"by": "k1", "level": "lv"}, [df["k1"], df.index.get_level_values("lv")], ["k1"]
+        return {"by": "k1", "level": lv}, [df["k1"], first_level], ["k1"]
     if by == "k1+array":
         return {"by": ["k1", ext]}, [df["k1"], ext], ["k1"]
     raise ValueError(by)
@@ -122,6 +126,13 @@ def facade_object(case, df, gkw, sel):
                 kw["by"] = kw["by"][0]
         return api.SeriesGroupBy._from_by_keys(df["fl"], **kw)
     g = api.DataFrameGroupBy._from_by_keys(df, **gkw)
+    prior = case.get("prior_use", "none")
+    if prior == "count":
+        g.count()  # the parent object has been used before the selection is taken from it
+    elif prior == "size":
+        g.size()
+    elif prior == "sum_it":
+        g[["it"]].sum()
     return g if sel is None else g[sel]
 
 
@@ -144,7 +155,7 @@ def check(case, ctx):
     has_null = df["k2"].isna().any() or df["fl"].isna().any()
     ctx.seen("facade", case, case["index"] != "default" or sel is not None or bool(has_null),
              [f"method:{method}", f"by:{case['by'] if isinstance(case['by'], str) else '+'.join(case['by'])}", f"index:{case['index']}", f"obj:{case['obj']}",
-              f"temporal:{case['temporal']}"])
+              f"temporal:{case['temporal']}", f"prior_use:{case.get('prior_use', 'none')}"])
     fg = facade_object(case, df, gkw, sel)
     core = GroupBy(keys[0] if len(keys) == 1 else keys)
     pg = pandas_object(case, df, keys, core_values)
